@@ -106,6 +106,21 @@ pub fn archive_inputs(seed: u64, which: u64) -> (Params, SampleSet) {
             let keep = rng.usize(0, body.len());
             foot.extend_from_slice(&body[..keep]);
             foot.truncate(15);
+            // half of the contigs spell a directory that is well formed up to its last byte: the
+            // parser reaches the end of the footer exactly on a field boundary
+            const TEMPLATES: [&[u8]; 8] = [
+                &[1, 1, 1, 2, 0, 5, 15, 15, 15, 15, 15, 0],          // one stream, 0x0F0F0F0F0F parts, then nothing
+                &[5, 15, 15, 15, 15, 15],                             // 0x0F0F0F0F0F streams, then nothing
+                &[1, 2, 0, 0, 0, 0, 0, 0],                            // two streams, both named "", no parts
+                &[0, 3, 1, 2],                                        // no streams, three bytes left over
+                &[1, 1, 7, 0, 1, 2, 0, 1, 5, 1, 3],                   // two parts announced, one present
+                &[1, 1, 3, 0, 1, 1, 0, 7, 15, 15, 15, 15, 15, 15, 15], // part offset 2^56-ish, size missing
+                &[1, 1, 3, 0, 1, 1, 0, 1, 0, 1, 2],                   // complete and valid: one stream, one part
+                &[1, 1, 3, 0, 1, 1, 0, 1, 0, 5, 15, 15, 15, 15, 15],  // complete, part size beyond the file
+            ];
+            if ci % 2 == 0 {
+                foot = TEMPLATES[(ci / 2 + which as usize / 6) % 8].to_vec();
+            }
             let mut d: Vec<u8> = (0..rng.usize(1, 31 - 8 - foot.len())).map(|_| rng.range(1, 15) as u8).collect();
             let flen = foot.len() as u8;
             d.extend_from_slice(&foot);
@@ -148,6 +163,11 @@ pub fn child(args: &Args, rep: &mut Report) -> i32 {
     }));
     let intact_open_max = crate::ALLOC_MAX.load(std::sync::atomic::Ordering::SeqCst);
     rep.max("max_single_allocation_bytes_opening_the_intact_file", intact_open_max as u64);
+    // hard stops for runaway allocation (a loop that grows a vector for ever): generous against
+    // anything an open of these files can legitimately need
+    crate::ALLOC_CAP_SINGLE.store(alloc_limit(full.len(), intact_open_max).saturating_mul(8).max(1 << 30), std::sync::atomic::Ordering::SeqCst);
+    let live_now = crate::ALLOC_LIVE.load(std::sync::atomic::Ordering::SeqCst);
+    crate::ALLOC_CAP_LIVE.store(live_now + (3usize << 30) + alloc_limit(full.len(), intact_open_max).saturating_mul(8), std::sync::atomic::Ordering::SeqCst);
     for n in sorted {
         if n >= full.len() {
             continue;
